@@ -145,6 +145,40 @@ func (fr *Frame) resolveFuncValue(v ssa.Value, st *State) (*ssa.Function, []Val)
 
 func (fr *Frame) callStatic(callee *ssa.Function, bindings []Val, args []Val, st *State, reach Term, instr ssa.Instruction) Val {
 	vc := fr.vc
+	// interior pointers (&arr[i], &s.f) passed as arguments: copy-in / copy-out
+	// through a fresh cell. Sound when the callee does not retain the pointer
+	// and the location is not also reachable through another argument.
+	type back struct {
+		lv   *LV
+		cell *LV
+		t    types.Type
+	}
+	var backs []back
+	for i, a := range args {
+		lv, ok := a.(*LV)
+		if !ok {
+			continue
+		}
+		if lv.ElemT == nil || isAggregate(lv.ElemT) {
+			vc.unsupportedf("interior pointer to %v passed to %s", lv.ElemT, callee.Name())
+		}
+		r := vc.newRef(st, "argcell")
+		cell := &LV{Kind: LCell, Key: elemKey(lv.ElemT), Ref: r, ElemT: lv.ElemT}
+		cur := fr.load(lv, lv.ElemT, st, reach).(*FV)
+		vc.storeFlat(st, cell, cur)
+		args = append(append([]Val{}, args[:i]...), append([]Val{scalar(lv.T, r)}, args[i+1:]...)...)
+		backs = append(backs, back{lv, cell, lv.ElemT})
+		vc.note("interior pointer argument of %s passed by copy-in/copy-out (assumes the callee does not retain it and it does not alias other arguments)", callee.Name())
+	}
+	if len(backs) > 0 {
+		defer func() {
+			for _, b := range backs {
+				nv := vc.loadFlat(st, b.cell, b.t)
+				vc.sc.Assume(vc.wellTyped(nv, st), "")
+				fr.storeTo(b.lv, nv, st)
+			}
+		}()
+	}
 	fc, cf := vc.prog.lookupContract(callee)
 	name := funcKeyQualified(callee)
 	short := callee.Name()
